@@ -38,8 +38,9 @@ import (
 )
 
 type step struct {
-	N   []int64 `json:"n"`
-	Sum int64   `json:"sum"`
+	N     []int64 `json:"n"`
+	Count int64   `json:"count"`
+	Sum   int64   `json:"sum"`
 }
 
 type tcase struct {
@@ -159,6 +160,7 @@ func snapshot(d datum.Datum) (maxes []int64, st step, why string) {
 		why = fmt.Sprintf("sum %v", b.Sum)
 	}
 	st.Sum = s
+	st.Count = int64(b.Count)
 	return maxes, st, why
 }
 
@@ -216,8 +218,8 @@ func run(n int, c *tcase, expo bool) (g got, why string, err error) {
 		if st.Sum != c.Steps[i].Sum {
 			note(fmt.Sprintf("after observing %v the sum is %d/2, model says %d/2", c.Obs[:i+1], st.Sum, c.Steps[i].Sum))
 		}
-		if cnt := datum.GetBucketsCount(d); cnt != uint64(i+1) {
-			note(fmt.Sprintf("Count is %d after %d observations", cnt, i+1))
+		if st.Count != c.Steps[i].Count || datum.GetBucketsCount(d) != uint64(st.Count) {
+			note(fmt.Sprintf("Count is %d (GetCount %d) after %d observations", st.Count, datum.GetBucketsCount(d), i+1))
 		}
 	}
 	if d == nil || why != "" {
